@@ -6,9 +6,11 @@ package http2
 
 import (
 	"fmt"
+	"os"
 	"sort"
 	"strconv"
 	"strings"
+	"time"
 	"unsafe"
 
 	vu "golang.org/x/net/internal/verifutil"
@@ -515,7 +517,22 @@ func (c *vfCase) pop(o *vu.Out) (string, string) {
 
 	var wr FrameWriteRequest
 	var ok bool
-	res := vu.Catch(func() string { wr, ok = c.ws.Pop(); return "" })
+	var res string
+	// Pop runs under a watchdog: a corrupted ring makes the real Pop loop forever; that must become a
+	// concrete failing input, not a harness timeout. (20 s is ~10^7 times a normal Pop.)
+	popDone := make(chan struct{})
+	go func() {
+		defer close(popDone)
+		res = vu.Catch(func() string { wr, ok = c.ws.Pop(); return "" })
+	}()
+	select {
+	case <-popDone:
+	case <-time.After(20 * time.Second):
+		o.Fail(c.region, fmt.Sprintf("[%s] Pop did not return within 20 s (infinite loop in the scheduler)", c.kind))
+		o.Op("pop", "hang")
+		o.Close()
+		os.Exit(0)
+	}
 	if res == "panic" {
 		c.fail(o, "Pop panicked")
 		return "pop", "panic"
